@@ -38,17 +38,19 @@ LIESEL_SETS = [
     [{"type": "MH", "keys": ["mu"]}, {"type": "NUTS", "keys": ["beta", "log_sigma"]}],
     [{"type": "HMC", "keys": ["beta", "mu"]}, {"type": "GIBBS", "keys": ["z"]}],
     [{"type": "IWLS", "keys": ["log_sigma"]}, {"type": "MH", "keys": ["beta"]}, {"type": "GIBBS", "keys": ["z"]}],
+    [{"type": "RW", "keys": ["offset"]}, {"type": "HMC", "keys": ["log_sigma", "mu"]}],
 ]
 DICT_SETS = [
     [{"type": "RW", "keys": ["a"]}, {"type": "IWLS", "keys": ["b"]}, {"type": "HMC", "keys": ["c"]}],
     [{"type": "MH", "keys": ["c"]}, {"type": "RW", "keys": ["b", "a"]}],
 ]
 ENGINE_SETS = [
-    {"kernels": [{"type": "RW", "keys": ["mu"]}, {"type": "IWLS", "keys": ["beta"]}, {"type": "GIBBS", "keys": ["z"]}, {"type": "HMC", "keys": ["log_sigma"]}], "chunk": 5},
+    {"kernels": [{"type": "RW", "keys": ["mu"]}, {"type": "IWLS", "keys": ["beta"]}, {"type": "GIBBS", "keys": ["z"]}, {"type": "HMC", "keys": ["log_sigma"]}, {"type": "RW", "keys": ["offset"]}], "chunk": 5},
     {"kernels": [{"type": "GIBBS", "keys": ["z"]}, {"type": "NUTS", "keys": ["beta", "mu"]}, {"type": "MH", "keys": ["log_sigma"]}], "chunk": 10},
-    {"kernels": [{"type": "IWLS", "keys": ["log_sigma", "mu"]}, {"type": "RW", "keys": ["beta"]}], "chunk": 1},
+    {"kernels": [{"type": "IWLS", "keys": ["log_sigma", "mu"]}, {"type": "RW", "keys": ["beta"]}, {"type": "RW", "keys": ["offset"]}], "chunk": 1},
 ]
 TOL = 2e-4
+IDENTS = ["zeta_kernel", "mid_kernel", "alpha_kernel", "beta_kernel"]  # user-chosen, not alphabetical
 
 
 def bounds(tier):
@@ -102,7 +104,7 @@ def run_kernel_unit(res, unit):
         kernels = []
         for i, spec in enumerate(unit["kernels"]):
             k = kl.make_kernel(spec, model)
-            k.identifier = f"kernel_{i:02d}"
+            k.identifier = IDENTS[i]
             k.set_model(interface)
             kernels.append(kl.Proxy(k, log))
         seq = KernelSequence(kernels)
@@ -147,8 +149,8 @@ def run_kernel_unit(res, unit):
         for j, e in enumerate(log):
             kid = j % nk
             spec = unit["kernels"][kid]
-            if e["kernel"] != f"kernel_{kid:02d}":
-                res.violation("kernel", f"order-{order}", case, f"transition #{j} was run by {e['kernel']}, configured order expects kernel_{kid:02d} ({case})")
+            if e["kernel"] != IDENTS[kid]:
+                res.violation("kernel", f"order-{order}", case, f"transition #{j} was run by {e['kernel']!r}, the configured order expects {IDENTS[kid]!r} ({case})")
                 return
             lin, lout = leaves(e["in"]), leaves(e["out"])
             # (1) starts from the state left by its predecessor
@@ -170,7 +172,7 @@ def run_kernel_unit(res, unit):
             # (4) rejection returns the input state exactly
             if moved is False and changed:
                 res.violation("kernel", f"reject-changes-state-{spec['type']}", case, f"{spec['type']}{spec['keys']} reported a rejection but changed {sorted(changed)[:4]} ({case})")
-            if moved is True and spec["type"] != "GIBBS" and not (changed & ({f"{p}_value" for p in spec["keys"]} if is_liesel else set(spec["keys"]))):
+            if moved is True and spec["type"] != "GIBBS" and not (changed & ({kl.param_node(p) for p in spec["keys"]} if is_liesel else set(spec["keys"]))):
                 res.violation("kernel", f"accept-without-move-{spec['type']}", case, f"{spec['type']}{spec['keys']} reported acceptance but its parameters did not change ({case})")
             # (3) coherence of all derived quantities
             if is_liesel:
@@ -224,15 +226,17 @@ def run_engine_unit(res, unit):
     b.show_progress = False
     b.set_model(interface)
     b.set_initial_values(model.state)
-    for spec in cfg["kernels"]:
-        b.add_kernel(kl.make_kernel(spec, model))
+    for i, spec in enumerate(cfg["kernels"]):
+        k = kl.make_kernel(spec, model)
+        k.identifier = ["zeta_kernel", "mid_kernel", "alpha_kernel", "beta_kernel", "aa_kernel"][i]
+        b.add_kernel(k)
     b.set_epochs([
         EpochConfig(EpochType.INITIAL_VALUES, 1, 1, None),
         EpochConfig(EpochType.FAST_ADAPTATION, 10, 1, None),
         EpochConfig(EpochType.BURNIN, 10, 1, None),
         EpochConfig(EpochType.POSTERIOR, 10, 1, None),
     ])
-    derived = ["sigma", "eta", "mu_log_prob", "beta_log_prob", "log_sigma_log_prob", "z_log_prob", "y_log_prob", "_model_log_prob", "_model_log_prior", "_model_log_lik"]
+    derived = ["sigma", "eta", "pred", "mu_log_prob", "beta_log_prob", "log_sigma_log_prob", "sigma_log_prob", "z_log_prob", "offset_log_prob", "y_log_prob", "_model_log_prob", "_model_log_prior", "_model_log_lik"]
     b.positions_included = kl.PARAMS + derived
     with seams.quiet():
         eng = b.build()
